@@ -115,7 +115,8 @@ def check_c16(prop, tier, seed, work, t0):
                  "in:constant_broadcast_registers", "in:noncanonical_cells", "in:overlapping_lanes",
                  "sums:memory", "sums:registers", "sums:noncanonical_representation",
                  "values:g64", "values:canonical_only", "values:extremes", "values:noncanonical_band",
-                 "in:both_operands_at_the_same_address", "forms:third_call_same_addresses_changed_contents", "mode:concurrent_callers_trials"]
+                 "in:both_operands_at_the_same_address", "forms:third_call_same_addresses_changed_contents", "mode:concurrent_callers_trials",
+                 "forms:result_register_triple_is_an_input_triple"]
     if res.counters.get("registered_overloads", 0) != registered_expect:
         res.inconclusive.append("the binaries registered %d overloads, the table demands %d" % (res.counters.get("registered_overloads", 0), registered_expect))
     short = [i for i, n in sorted(planned.items()) if res.counters.get("ov:" + i, 0) < n]
